@@ -457,6 +457,7 @@ func runC10(c *Ctx, r *Report) {
 		c10r6(c, r)
 		c10r7(c, r)
 		c10r8(c, r)
+		c14r15(c, r) // a range is evaluated over the fields that exist
 		if c.thorough() {
 			c08r3(c, r) // change-nth invalidates everything that was computed under the old field selection
 		}
